@@ -132,7 +132,7 @@ class _LazyLevel:
     def __init__(self, meta):  # type: ignore[no-untyped-def]
         self.meta = meta
 
-    def decode(self, *a):  # type: ignore[no-untyped-def]
+    def decode(self, *a, **kw):  # type: ignore[no-untyped-def]
         return Level.EXCEPTION.value if self.meta.exc else Level.INFO.value
 
     def __eq__(self, o):  # type: ignore[no-untyped-def]
@@ -347,28 +347,51 @@ def _flags_of(args: dict):  # type: ignore[no-untyped-def]
     return [tuple(args[f"{k}{i}"] for k in ("z", "c", "l", "v", "m", "x", "s")) for i in range(_NB)]
 
 
+def _normalise_schema_flags(n, flags):  # type: ignore[no-untyped-def]
+    """A real stream has one schema; the code looks at the first data batch's only.  Give the whole payload the
+    schema relation of the first data batch (as classified by the integrity rule)."""
+    first_same = True
+    for i in range(n):
+        b = _mk_batch(i, *flags[i])
+        cm = b.cm
+        is_log = cm is not None and b.num_rows == 0 and cm.get(LOG_LEVEL_KEY) is not None and cm.get(LOG_MESSAGE_KEY) is not None
+        if not is_log:
+            first_same = flags[i][6]
+            break
+    return [f[:6] + (first_same,) for f in flags]
+
+
+def _real_reason(exc) -> str:  # type: ignore[no-untyped-def]
+    if exc is None:
+        return "ok"
+    if isinstance(exc, RpcError):
+        return "exception-log"
+    text = str(exc)
+    for needle, reason in (("SHA-256", "digest"), ("Redirect loop", "pointer"), ("No data batch", "count"), ("Multiple data batches", "count"),
+                           ("Schema mismatch", "schema")):
+        if needle in text:
+            return reason
+    return "other:" + type(exc).__name__
+
+
 def _replay_table(args: dict) -> str | None:
-    flags = _flags_of(args)
     n = args["n"]
-    # a stream has a single schema: replay the counterexample with 'schema differs' applied to the whole payload
-    other = any((not f[6]) for f in flags[:n])
-    flags = [f[:6] + ((not other),) for f in flags]
+    flags = _normalise_schema_flags(n, _flags_of(args))
     deq = args["digest_equal"]
     res, exc, logs = _real_call(n, flags, args["has_expected"], deq)
     want = _oracle([_mk_batch(i, *flags[i]) for i in range(n)], args["has_expected"], deq)
-    got_ok = exc is None
-    if got_ok != (want[0] == "ok"):
+    want_reason = "ok" if want[0] == "ok" else want[1]
+    got = _real_reason(exc)
+    if got != want_reason:
         return (f"real _fetch_and_resolve on a payload of {n} batches (flags zero/cm/location/level/message/exception/schema-equal = {flags[:n]}, "
                 f"expected digest {'absent' if not args['has_expected'] else ('equal' if deq else 'different')}): "
-                f"{'returned a batch' if got_ok else 'raised ' + type(exc).__name__} but the integrity rule says {want[:2]}")
+                f"{'returned a batch' if exc is None else 'raised ' + type(exc).__name__ + ' (' + got + ')'} but the integrity rule says {want_reason}")
     return None
 
 
 def _replay_logs(args: dict) -> str | None:
-    flags = _flags_of(args)
     n = args["n"]
-    other = any((not f[6]) for f in flags[:n])
-    flags = [f[:6] + ((not other),) for f in flags]
+    flags = _normalise_schema_flags(n, _flags_of(args))
     deq = args["digest_equal"]
     res, exc, logs = _real_call(n, flags, args["has_expected"], deq)
     if exc is not None and logs:
